@@ -5,6 +5,7 @@
 From Coq Require Import Strings.String Strings.Byte.
 From Coq Require Import List NArith.
 From Goit Require Import Bytes Tree Index IndexFacts.
+From Goit Require Import Obj World Repo ExactFacts.
 Import ListNotations.
 
 (* staging path p with id: afterwards p is staged with exactly that id, every
@@ -37,8 +38,84 @@ Theorem C04_dir_selects_exactly : forall es name e,
   In e (entries_by_dir es name) <-> In e es /\ under_dir name (e_path e) = true.
 Proof. exact entries_by_dir_exact. Qed.
 
+
+(* ---------- Part 2: the commands ---------- *)
+(* views: what is staged at a path, what file is at a path *)
+
+(* add of one file: afterwards the path is staged with the id of its current
+   bytes and that blob is stored; every other staged entry, the work tree,
+   refs, HEAD, logs and configs are unchanged; every stored object is kept;
+   if that id was already staged NOTHING changes (empty trace, same world) *)
+Theorem C04_add_file_spec : forall w p data,
+  IndexFacts.Canonical (idx_of w) -> file w p = Some data ->
+  exists tr, runs (add_file p) w (Ok tt) tr /\ Forall add_eff tr /\
+             (staged w p = Some (blob_id data) -> tr = []) /\ add_file_post w p data (apply_effects tr w).
+Proof. exact add_file_spec. Qed.
+
+(* a directory argument: every non-ignored file beneath it is staged with its
+   id, everything else keeps its staged value, the work tree is untouched *)
+Theorem C04_add_dir_spec : forall c w d,
+  IndexFacts.Canonical (idx_of w) -> ex_wt_consistent w -> wt_stat w d = SDir -> ignored w (x_pats c) d = false ->
+  exists tr, runs (cmd_add c [d]) w (Ok []) tr /\ Forall add_eff tr /\
+             add_dir_post w (x_pats c) (fun q => In q (files_under w d)) (apply_effects tr w) /\
+             (w_coll (apply_effects tr w) = false -> objs_kept w (apply_effects tr w)).
+Proof. exact cmd_add_dir_spec. Qed.
+
+(* a tracked path that no longer exists is unstaged, nothing else changes *)
+Theorem C04_add_missing_spec : forall c w a,
+  IndexFacts.Canonical (idx_of w) -> wt_stat w a = SNone -> staged w a <> None -> ignored w (x_pats c) a = false ->
+  exists i, idx_delete (idx_of w) a = Some i /\ runs (cmd_add c [a]) w (Ok []) [ESetIndex i] /\
+             add_missing_post w a (apply_effects [ESetIndex i] w).
+Proof. exact cmd_add_missing_spec. Qed.
+
+(* the whole command, any argument list, any outcome: only object and
+   staging-area writes; work tree, refs, HEAD, logs, configs untouched; stored
+   objects kept; a staged value changes only at an argument or beneath one *)
+Theorem C04_add_frame : forall c w args r w' tr,
+  IndexFacts.Canonical (idx_of w) -> run_m (cmd_add c args) w = (r, w', tr) ->
+  w' = apply_effects tr w /\ Forall add_eff tr /\ same_wt w w' /\ same_meta w w' /\
+  (w_coll w' = false -> objs_kept w w') /\ IndexFacts.Canonical (idx_of w') /\
+  (forall q, staged w' q <> staged w q -> add_sel w args q).
+Proof. exact cmd_add_frame. Qed.
+
+Theorem C04_add_unknown_refused : forall c w args,
+  forallb (fun a => exists_on_disk w a || tracked w a)%bool args = false ->
+  runs (cmd_add c args) w Err [] /\ run_m (cmd_add c args) w = (Err, w, []).
+Proof. exact cmd_add_refuses. Qed.
+
+(* rm of a directory: exactly the tracked paths beneath it leave both the
+   staging area and the work tree *)
+Theorem C04_rm_dir_spec : forall w d,
+  IndexFacts.Canonical (idx_of w) -> ex_nodup_keys (w_files w) -> staged w d = None -> is_dir (idx_of w) d = true ->
+  (forall q, staged w q <> None -> under_dir d q = true -> wt_stat w q = SFile \/ wt_stat w q = SNone) ->
+  exists tr, runs (cmd_rm [d]) w (Ok []) tr /\
+    Forall (fun e => rm_eff e /\ (forall q, e = ERemovePath q -> staged w q <> None /\ under_dir d q = true)) tr /\
+    rm_many_post w (fun q => staged w q <> None /\ under_dir d q = true) (apply_effects tr w).
+Proof. exact cmd_rm_dir_spec. Qed.
+
+(* the whole command, any outcome: objects, refs, HEAD, logs, configs untouched
+   and NO untracked file is removed or modified *)
+Theorem C04_rm_frame : forall w args r w' tr,
+  IndexFacts.Canonical (idx_of w) -> run_m (cmd_rm args) w = (r, w', tr) ->
+  w' = apply_effects tr w /\ Forall (rm_allowed w) tr /\ same_objs w w' /\ same_meta w w' /\
+  (forall q, staged w q = None -> file w' q = file w q).
+Proof. exact cmd_rm_frame. Qed.
+
+Theorem C04_rm_unknown_refused : forall w args,
+  forallb (fun a => tracked w a || is_dir (idx_of w) a)%bool args = false ->
+  runs (cmd_rm args) w Err [] /\ run_m (cmd_rm args) w = (Err, w, []).
+Proof. exact cmd_rm_refuses. Qed.
+
 Print Assumptions C04_stage_exact.
 Print Assumptions C04_restage_noop.
 Print Assumptions C04_unstage_exact.
 Print Assumptions C04_unstage_unknown_refused.
 Print Assumptions C04_dir_selects_exactly.
+Print Assumptions C04_add_file_spec.
+Print Assumptions C04_add_dir_spec.
+Print Assumptions C04_add_missing_spec.
+Print Assumptions C04_add_frame.
+Print Assumptions C04_add_unknown_refused.
+Print Assumptions C04_rm_dir_spec.
+Print Assumptions C04_rm_frame.
+Print Assumptions C04_rm_unknown_refused.
